@@ -101,6 +101,9 @@ def get_param_targets(
     actual_targets = param_to_consumers.get(param, [])
     if not actual_targets:
         for node_id, attrs in flat_graph.nodes(data=True):
+            if attrs.get("hide", False):
+                # A hidden node is not part of the diagram: no edge may point at it
+                continue
             if param in attrs.get("inputs", ()):
                 return [get_root_ancestor(node_id, flat_graph)]
     return actual_targets
